@@ -51,6 +51,9 @@ Proof.
     cbn [orb andb]; try reflexivity; nia.
 Qed.
 
+Lemma wrap_sub M r x T0 : 0 <= r < M -> 0 <= x <= 1 -> r - M * x = T0 -> (T0 < 0 -> x = 1) /\ (0 <= T0 -> x = 0).
+Proof. intros. split; intros; nia. Qed.
+
 (* T = C*B + a0 - q*b0 is the true remainder candidate A - q*Bv, with C = c + B*ret1 *)
 Lemma div32_tail_ok k lm q c ret1 a0 b1 b0 HA :
   lmul_ok k lm -> wf k q -> wf k c -> wf k a0 -> wf k b1 -> wf k b0 -> 0 <= HA ->
@@ -82,42 +85,113 @@ Proof.
   assert (Hcond : (val k a0 + B k * val k c <? val k d0 + B k * val k d1) = (val k a0 + B k * val k c - val k q * val k b0 <? 0)).
   { rewrite <- Ed. destruct (Z.ltb_spec (val k a0 + B k * val k c) (val k d0 + B k * val k d1)), (Z.ltb_spec (val k a0 + B k * val k c - (val k d0 + B k * val k d1)) 0); try reflexivity; lia. }
   rewrite Hcond. clear Hcond.
-  assert (HBv : 0 < Bv < B k * B k) by (subst Bv; nia).
+  assert (HBv : 0 < Bv < B k * B k).
+  { split; [lia|]. subst Bv. rewrite (Z.mul_comm (val k b1)), Z.add_comm. apply pair_range; lia. }
   set (T0 := val k a0 + B k * val k c - val k q * val k b0) in *.
-  assert (Rr : 0 <= val k r0 + B k * val k r1 < B k * B k) by nia.
+  assert (Rr : 0 <= val k r0 + B k * val k r1 < B k * B k) by (apply pair_range; lia).
+  assert (EA : HA * B k + val k a0 = val k q * Bv + T) by (subst T; ring).
+  assert (HTq : forall n, 0 <= n -> val k q <= n -> - n * Bv <= T).
+  { intros n Hn Hq. rewrite ET in *. clear - EA HA0 Ra0 HB Hn Hq HBv. nia. }
   destruct ret1; cbn [negb andb b2z] in *.
   - (* the q = B-1 branch produced a carry: no correction *)
     specialize (Hret eq_refl).
-    assert (b2z x = 1) by nia.
-    repeat split; try assumption; subst T Bv; nia.
+    destruct (wrap_sub (B k * B k) _ _ _ Rr Rx Er) as [Hx _]. specialize (Hx ltac:(lia)).
+    repeat split; try assumption; lia.
   - destruct (Z.ltb_spec T0 0) as [Hneg|Hpos].
     + (* first correction *)
-      assert (Ex : b2z x = 1) by nia.
-      assert (Hq1 : 1 <= val k q) by (subst T Bv; nia).
+      destruct (wrap_sub (B k * B k) _ _ _ Rr Rx Er) as [Hx _]. specialize (Hx Hneg).
+      assert (Hq1 : 1 <= val k q) by (destruct (Z.le_gt_cases 1 (val k q)); [assumption | specialize (HTq 0 ltac:(lia) ltac:(lia)); lia]).
       pose proof (sub_1_spec k q Wq) as (Wq1 & Eq1). destruct (sub_1 k q) as [q1 y1]. cbn [fst snd] in *.
-      pose proof (val_range _ _ Wq1) as Rq1. pose proof (b2z_range y1).
-      assert (Ey1 : val k q1 = val k q - 1) by nia.
+      pose proof (val_range _ _ Wq1) as Rq1. pose proof (b2z_range y1) as Ry1.
+      destruct (wrap_sub (B k) _ _ _ Rq1 Ry1 Eq1) as [_ Hy1]. specialize (Hy1 ltac:(lia)).
+      assert (Ey1 : val k q1 = val k q - 1) by (rewrite Hy1 in Eq1; lia).
       pose proof (add_c_spec k r0 b0 Wr0 Wb0) as (Wr0' & Er0'). destruct (add_c k r0 b0) as [r0' rs']. cbn [fst snd] in *.
       pose proof (add_wc_spec k r1 b1 rs' Wr1 Wb1) as (Wr1' & Er1'). destruct (add_wc k r1 b1 rs') as [r1' ret]. cbn [fst snd] in *.
-      pose proof (val_range _ _ Wr0') as Rr0'. pose proof (val_range _ _ Wr1') as Rr1'. pose proof (b2z_range rs'). pose proof (b2z_range ret).
+      pose proof (val_range _ _ Wr0') as Rr0'. pose proof (val_range _ _ Wr1') as Rr1'. pose proof (b2z_range ret) as Rret.
       assert (Er' : val k r0' + B k * val k r1' + B k * B k * b2z ret = val k r0 + B k * val k r1 + Bv).
       { subst Bv. clear - Er0' Er1'. mulhyp Er1' (B k). lia. }
-      assert (Rr' : 0 <= val k r0' + B k * val k r1' < B k * B k) by nia.
+      assert (Rr' : 0 <= val k r0' + B k * val k r1' < B k * B k) by (apply pair_range; lia).
+      assert (EBq1 : val k q1 * Bv = val k q * Bv - Bv) by (rewrite Ey1; ring).
       destruct ret; cbn [negb b2z] in *.
-      * repeat split; try assumption; subst T Bv; nia.
+      * repeat split; try assumption; lia.
       * (* second correction *)
-        assert (Hq2 : 2 <= val k q) by (subst T Bv; nia).
+        assert (Hq2 : 2 <= val k q) by (destruct (Z.le_gt_cases 2 (val k q)); [assumption | specialize (HTq 1 ltac:(lia) ltac:(lia)); lia]).
         pose proof (sub_1_spec k q1 Wq1) as (Wq2 & Eq2). destruct (sub_1 k q1) as [q2 y2]. cbn [fst snd] in *.
-        pose proof (val_range _ _ Wq2) as Rq2. pose proof (b2z_range y2).
-        assert (Ey2 : val k q2 = val k q - 2) by nia.
+        pose proof (val_range _ _ Wq2) as Rq2. pose proof (b2z_range y2) as Ry2.
+        destruct (wrap_sub (B k) _ _ _ Rq2 Ry2 Eq2) as [_ Hy2]. specialize (Hy2 ltac:(lia)).
+        assert (Ey2 : val k q2 = val k q - 2) by (rewrite Hy2 in Eq2; lia).
         pose proof (add_c_spec k r0' b0 Wr0' Wb0) as (Wr0'' & Er0''). destruct (add_c k r0' b0) as [r0'' rs'']. cbn [fst snd] in *.
         pose proof (add_wc_spec k r1' b1 rs'' Wr1' Wb1) as (Wr1'' & Er1''). destruct (add_wc k r1' b1 rs'') as [r1'' z]. cbn [fst snd] in *.
-        pose proof (val_range _ _ Wr0'') as Rr0''. pose proof (val_range _ _ Wr1'') as Rr1''. pose proof (b2z_range rs''). pose proof (b2z_range z).
+        pose proof (val_range _ _ Wr0'') as Rr0''. pose proof (val_range _ _ Wr1'') as Rr1''. pose proof (b2z_range z) as Rz.
         assert (Er'' : val k r0'' + B k * val k r1'' + B k * B k * b2z z = val k r0' + B k * val k r1' + Bv).
         { subst Bv. clear - Er0'' Er1''. mulhyp Er1'' (B k). lia. }
-        assert (Rr'' : 0 <= val k r0'' + B k * val k r1'' < B k * B k) by nia.
-        assert (b2z z = 1) by (subst T; nia).
-        repeat split; try assumption; subst T Bv; nia.
-    + assert (b2z x = 0) by nia.
-      repeat split; try assumption; subst T Bv; nia.
+        assert (Rr'' : 0 <= val k r0'' + B k * val k r1'' < B k * B k) by (apply pair_range; lia).
+        assert (EBq2 : val k q2 * Bv = val k q * Bv - 2 * Bv) by (rewrite Ey2; ring).
+        assert (Hz : b2z z = 1) by lia.
+        repeat split; try assumption; lia.
+    + destruct (wrap_sub (B k * B k) _ _ _ Rr Rx Er) as [_ Hx]. specialize (Hx Hpos).
+      repeat split; try assumption; lia.
+Qed.
+
+Lemma div32_step_ok k lm d21 : lmul_ok k lm -> div21_ok k d21 -> div32_ok k (div32_step k lm d21).
+Proof.
+  intros Hlm Hd21 a2 a1 a0 b1 b0 Wa2 Wa1 Wa0 Wb1 Wb0 Hnorm Hlt.
+  rewrite div32_step_unfold. rewrite lt_spec by assumption.
+  pose proof (B_pos k) as HB.
+  pose proof (val_range _ _ Wa2) as Ra2. pose proof (val_range _ _ Wa1) as Ra1. pose proof (val_range _ _ Wa0) as Ra0.
+  pose proof (val_range _ _ Wb1) as Rb1. pose proof (val_range _ _ Wb0) as Rb0.
+  set (HA := val k a2 * B k + val k a1) in *.
+  assert (HA0 : 0 <= HA) by (subst HA; nia).
+  destruct (Z.ltb_spec (val k a2) (val k b1)) as [Hlt2|Hge2].
+  - (* quotient estimate by the 2-by-1 division *)
+    pose proof (Hd21 a2 a1 b1 Wa2 Wa1 Wb1 Hnorm Hlt2) as (Wq & Wc & Eq & Rc).
+    destruct (d21 a2 a1 b1) as [q c]. cbn [fst snd] in *.
+    pose proof (val_range _ _ Wq) as Rq. pose proof (val_range _ _ Wc) as Rcc.
+    pose proof (div32_tail_ok k lm q c false a0 b1 b0 HA Hlm Wq Wc Wa0 Wb1 Wb0 HA0) as Ht.
+    cbn [b2z] in Ht. specialize (Ht ltac:(subst HA; lia)). cbn zeta in Ht.
+    apply Ht; [|discriminate].
+    fold HA in Eq. clear Ht. split.
+    + (* T > -2 Bv: q*b0 < B*B <= 2*b1*B *)
+      assert (val k q * val k b0 < B k * B k) by (clear - Rq Rb0 HB; nia).
+      assert (HA * B k + val k a0 - val k q * (val k b1 * B k + val k b0)
+              = val k c * B k + val k a0 - val k q * val k b0) by (rewrite Eq; ring).
+      clear - H H0 Hnorm Rcc Ra0 HB Rb1 Rb0. nia.
+    + assert (HA * B k + val k a0 - val k q * (val k b1 * B k + val k b0)
+              = val k c * B k + val k a0 - val k q * val k b0) by (rewrite Eq; ring).
+      clear - H Rc Rcc Ra0 HB Rb1 Rb0 Rq. nia.
+  - (* a2 = b1: q = B - 1 *)
+    assert (E2 : val k a2 = val k b1) by (subst HA; clear - Hlt Hge2 Ra1 Rb0 HB; nia).
+    assert (L1 : val k a1 < val k b0) by (subst HA; clear - Hlt E2 HB; nia).
+    pose proof (add_c_spec k a1 b1 Wa1 Wb1) as (Wc & Ec). destruct (add_c k a1 b1) as [c r]. cbn [fst snd] in *.
+    destruct (val_ones k) as [Wo Eo].
+    pose proof (val_range _ _ Wc) as Rcc. pose proof (b2z_range r) as Rr.
+    pose proof (div32_tail_ok k lm (ones k) c r a0 b1 b0 HA Hlm Wo Wc Wa0 Wb1 Wb0 HA0) as Ht.
+    rewrite Eo in Ht. specialize (Ht ltac:(subst HA; rewrite E2; clear - Ec; lia)). cbn zeta in Ht.
+    apply Ht; clear Ht.
+    + assert (ET : HA * B k + val k a0 - (B k - 1) * (val k b1 * B k + val k b0)
+                   = (val k a1 + val k b1) * B k + val k a0 - (B k - 1) * val k b0) by (subst HA; rewrite E2; ring).
+      rewrite ET. clear - L1 Ra0 Ra1 Rb0 Rb1 HB. split; nia.
+    + intros _.
+      assert (ET : HA * B k + val k a0 - (B k - 1) * (val k b1 * B k + val k b0)
+                   = (val k a1 + val k b1) * B k + val k a0 - (B k - 1) * val k b0) by (subst HA; rewrite E2; ring).
+      rewrite ET. clear - Ra0 Ra1 Rb0 Rb1 HB Hnorm. nia.
+Qed.
+
+Lemma div21_step_ok k d32 : div32_ok k d32 -> div21_ok (S k) (div21_step k d32).
+Proof.
+  intros H32 [ah0 ah1] [al0 al1] [b0 b1] [Wah0 Wah1] [Wal0 Wal1] [Wb0 Wb1] Hnorm Hlt.
+  cbn [fst snd] in *. unfold div21_step. cbn [fst snd].
+  rewrite !val_S in *. cbn [fst snd] in *. rewrite B_S in *.
+  pose proof (B_pos k) as HB. destruct (B_even k) as (hb & Ehb & Hhb).
+  pose proof (val_range _ _ Wb0) as Rb0. pose proof (val_range _ _ Wb1) as Rb1.
+  pose proof (val_range _ _ Wah0) as Rah0. pose proof (val_range _ _ Wah1) as Rah1.
+  assert (Hn1 : B k <= 2 * val k b1) by (clear - Hnorm Rb0 Rb1 HB Ehb Hhb; nia).
+  assert (Hl1 : val k ah1 * B k + val k ah0 < val k b1 * B k + val k b0) by lia.
+  pose proof (H32 ah1 ah0 al1 b1 b0 Wah1 Wah0 Wal1 Wb1 Wb0 Hn1 Hl1) as H1.
+  destruct (d32 ah1 ah0 al1 b1 b0) as [[qh s1] s0]. destruct H1 as (Wqh & Ws1 & Ws0 & E1 & L1).
+  pose proof (H32 s1 s0 al0 b1 b0 Ws1 Ws0 Wal0 Wb1 Wb0 Hn1 L1) as H2.
+  destruct (d32 s1 s0 al0 b1 b0) as [[ql r1] r0]. destruct H2 as (Wql & Wr1 & Wr0 & E2 & L2).
+  cbn [fst snd]. split; [split; assumption|]. split; [split; assumption|].
+  rewrite !val_S. cbn [fst snd]. split; [|lia].
+  clear - E1 E2. mulhyp E1 (B k). lia.
 Qed.
